@@ -9,7 +9,7 @@ from .core import AnalysisError, Loc, Report, norm
 from .inifront import IniConfig, Obj
 from .config_graph import ConfigGraph
 from .guards import atoms, path_conditions
-from .resolve import split_atom
+from .resolve import Resolver, split_atom
 from .normalize import canon
 from .pyfront import ClassInfo, Program, body_without_docstring, param_names, self_attr
 
@@ -466,17 +466,17 @@ def _comprehension_facts(fn: ast.FunctionDef) -> Dict[str, object]:
 
 
 def _extracts_every(rets, fn) -> bool:
-    """one of the returns is tuple(extract_from_global_state(i) for i in <the looked-up identifiers>) without a filter"""
-    from .resolve import Resolver
+    """one of the returns hands out extract_from_global_state(i) for every looked-up identifier i, without a filter"""
+    from .resolve import Resolver, elementwise
     R = Resolver(fn)
     for r in rets:
-        v = r.value
-        if isinstance(v, ast.Call) and norm(v.func) in ("tuple", "list") and len(v.args) == 1 and isinstance(v.args[0], (ast.GeneratorExp, ast.ListComp)):
-            g = v.args[0]
-            if len(g.generators) == 1 and not g.generators[0].ifs and isinstance(g.elt, ast.Call) and norm(g.elt.func).endswith("extract_from_global_state") \
-                    and len(g.elt.args) == 1 and norm(g.elt.args[0]) == norm(g.generators[0].target) \
-                    and "get_info_internal_state" in R.text(g.generators[0].iter):
-                return True
+        ew = elementwise(fn, r.value) if r.value is not None else None
+        if ew is None:
+            continue
+        elt, var, it, filtered = ew
+        if not filtered and isinstance(elt, ast.Call) and norm(elt.func).endswith("extract_from_global_state") and len(elt.args) == 1 \
+                and norm(elt.args[0]) == var and "get_info_internal_state" in R.text(it):
+            return True
     return False
 
 
@@ -535,19 +535,26 @@ def check_tagger_algebra(prog: Program, rep: Report) -> None:
     # R10.2 veto handler and bounding potential: tables over AllCells \ Nearby(zero_cell)
     for cname, fname in (("CellVetoEventHandler", "initialize"), ("CellBoundingPotential", "initialize")):
         c = prog.class_named(cname)
-        f = c.methods.get(fname)
+        f = canon(prog, c, c.methods[fname]) if fname in c.methods else None   # helpers / generator helpers inlined
+        if f is None:
+            raise AnalysisError(f"{cname}.{fname} not found")
         loops = [n for n in ast.walk(f) if isinstance(n, ast.For) and norm(n.iter).endswith("yield_cells()")]
         for lp in loops:
             var = norm(lp.target)
             first = lp.body[0] if lp.body else None
+            near = first.test.comparators[0] if isinstance(first, ast.If) and isinstance(first.test, ast.Compare) else None
             ok = isinstance(first, ast.If) and len(lp.body) == 1 and isinstance(first.test, ast.Compare) \
                 and isinstance(first.test.ops[0], ast.NotIn) and norm(first.test.left) == var \
-                and norm(first.test.comparators[0]).endswith("nearby_cells(cells.zero_cell)")
+                and isinstance(near, ast.Call) and norm(near.func).endswith("nearby_cells") and len(near.args) == 1 \
+                and norm(near.args[0]).endswith("zero_cell")
             rep.ob("R10.2-far-field-domain", ok, Loc(c.file, lp.lineno, f"{cname}.{fname}"), first.test if isinstance(first, ast.If) else lp.iter,
                    "the far-field tables (cell-veto walker, cell bounds) must range over exactly the cells that are not nearby "
                    "cells of the zero cell -- the relative complement of what the excluded-cells tagger treats explicitly")
             keys = [n for n in ast.walk(lp) if isinstance(n, ast.Assign) and "relative_cell" in norm(n.value)]
-            rep.ob("R10.2-keyed-by-relative-cell", bool(keys) and all(norm(k.value).endswith(f"relative_cell({var}, cells.zero_cell)") for k in keys),
+            def rel(e: ast.AST) -> bool:
+                cs = [c for c in ast.walk(e) if isinstance(c, ast.Call) and norm(c.func).endswith("relative_cell")]
+                return len(cs) == 1 and len(cs[0].args) == 2 and norm(cs[0].args[0]) == var and norm(cs[0].args[1]).endswith("zero_cell")
+            rep.ob("R10.2-keyed-by-relative-cell", bool(keys) and all(rel(k.value) for k in keys),
                    Loc(c.file, lp.lineno, f"{cname}.{fname}"), keys[0] if keys else "key", "bounds must be keyed by the cell relative to the zero cell")
     # target lookup
     med = prog.class_named("Mediator")
@@ -564,11 +571,18 @@ def check_tagger_algebra(prog: Program, rep: Report) -> None:
                Loc(med.file, ga.lineno, "Mediator.get_arguments_cell_veto_event_handler"), "extract every occupant, or (None,) for an empty cell",
                "every occupant of the target cell must be handed to the veto handler; an empty cell yields None")
     # veto handler: target cell = translate(active_cell, sampled relative cell)
-    cv = prog.class_named("CellVetoEventHandler").methods.get("send_event_time")
+    cvc = prog.class_named("CellVetoEventHandler")
+    cv = canon(prog, cvc, cvc.methods["send_event_time"]) if "send_event_time" in cvc.methods else None
+    if cv is None:
+        raise AnalysisError("CellVetoEventHandler.send_event_time not found")
+    RC = Resolver(cv)
     tr = [n for n in ast.walk(cv) if isinstance(n, ast.Call) and norm(n.func).endswith("translate")]
-    ac = [n for n in ast.walk(cv) if isinstance(n, ast.Assign) and isinstance(n.targets[0], ast.Name) and "position_to_cell" in norm(n.value)]
-    sc = [n for n in ast.walk(cv) if isinstance(n, ast.Assign) and isinstance(n.targets[0], ast.Name) and norm(n.value).endswith("sample_cell()")]
-    ok = len(tr) == 1 and len(ac) == 1 and len(sc) == 1 and [norm(a) for a in tr[0].args] == [norm(ac[0].targets[0]), norm(sc[0].targets[0])]
+    ok = False
+    if len(tr) == 1 and len(tr[0].args) == 2:
+        a0, a1 = RC.res(tr[0].args[0]), RC.res(tr[0].args[1])
+        # first argument: the cell of the active unit's position; second: the relative cell the walker sampled
+        ok = isinstance(a0, ast.Call) and norm(a0.func).endswith("position_to_cell") and isinstance(a1, ast.Call) \
+            and norm(a1.func).endswith("sample_cell") and not a1.args
     rep.ob("R10.2-offset-to-target", ok, Loc(prog.class_named("CellVetoEventHandler").file, cv.lineno, "CellVetoEventHandler.send_event_time"),
            tr[0] if tr else "translate", "the target cell must be the active unit's cell translated by the sampled relative cell")
 
